@@ -438,3 +438,9 @@ def run(index, rep, tier):
                         rep.check(n not in seen or False, "R17.12", fi.qualname, "`%s[%d]` reachable with fewer than %d children" % (base, k, k + 1), fn_where(fi, sub), "%s: %s[%d] only with at least %d children" % (fi.name, base, k, k + 1),
                                   "%s reads `%s[%d]` on a path on which no test has excluded a node with fewer than %d children: a unifurcation (out-degree one) reaches the subscript and the statistic fails with IndexError instead of the documented TypeError for trees that are not strictly bifurcating" % (fi.qualname, base, k, k + 1))
         rep.floor("R17.12", "positional child reads in the statistics", 2, n12)
+
+    # ---- R17.13 no age-like quantity is served from a cache nobody invalidates
+    with rep.section("R17.13"):
+        rep.rule("R17.13", "no distance is served from a cache nobody invalidates: in the node and tree classes a computed value parked on an object under `if not hasattr(obj, '_a')` is also written or deleted by some other function (Node.distance_from_tip used to keep `_distance_from_tip` on every child for ever)")
+        rep.floor("R17.13", "functions of the tree model examined", 0, uninvalidated_memo_rule(index, rep, "R17.13", ["dendropy.datamodel.treemodel._node", "dendropy.datamodel.treemodel._tree", "dendropy.datamodel.treemodel._edge"]))
+        rep.ob("R17.13", "src/dendropy/datamodel/treemodel", "hasattr-guarded caches of computed values in Node / Tree / Edge: none without a second writer", True)
